@@ -10,7 +10,7 @@ _RULE = ("alignedMalloc/alignedFree: every history of D operations (every shorte
          "full alphabet size in {0,1,7,8,63,64,65,4095,4096,4097} x align in {1,2,4,..,4096} with D=3 (thorough 4), "
          "reduced alphabet size in {0,1,64,4097} x align in {1,8,64,4096} with D=5 (thorough 6); every history starts with no live harness block "
          "(the allocator's own state carries over inside a shard process). "
-         "AlignedVector<T>, sizeof(T) in {1,4,8,24,72}: every history of D=5 (thorough 6) operations over {push_back, resize(0/1/17/500, x), reserve(200), "
+         "AlignedVector<T>, sizeof(T) in {1,4,8,24,72} plus a 16-byte type with an initializer-list constructor over its own kind: every history of D=5 (thorough 6) operations over {push_back, resize(0/1/17/500, x), reserve(200), "
          "shrink_to_fit, assign(9,x), swap with a second vector, clear, copy-construct + copy-assign into the second vector} against std::vector<T>. "
          "aligned_allocator<T>::allocate(n) for n on a boundary grid (small, max_size()-3..+3, SIZE_MAX/2+-3, SIZE_MAX-3..SIZE_MAX, further multiples of 2^64/sizeof(T)). "
          "Two histories are distinct when their operation sequences differ; distinct outcomes = distinct sequences of (null?, alignment class) resp. (size, capacity).")
@@ -26,7 +26,7 @@ UNITS_LOCAL = {"C14": [
          rule="_mm_malloc/_mm_free back end under ASan+UBSan+LSan. " + _RULE,
          assumptions=_ASSUME + ["ASan replaces malloc/posix_memalign/free below _mm_malloc: extent and release are judged on ASan's allocator, alignment arithmetic is rkcommon's/_mm_malloc's own"]),
     Unit("tbb", ["harness/C14_alloc.cpp"], repo_src=["rkcommon/memory/malloc.cpp"],
-         defs=["RKCOMMON_TASKING_TBB"], libs=["-ltbb", "-ltbbmalloc"], flags=[], opt="-O1", engine="seqmc",
+         defs=["RKCOMMON_TASKING_TBB"], libs=["-ltbb", "-ltbbmalloc"], flags=[], opt="-O1", engine="seqmc", cxx="g++",
          budget={"quick": 300, "thorough": 1200},
          rule="TBB scalable_aligned_malloc/scalable_aligned_free back end, no sanitizer: fill-pattern, disjointness, scalable_msize >= size, "
               "and 256 MiB worth of malloc/free cycles of one block (9 size/align pairs) grow the address space by <= 128 MiB. " + _RULE,
